@@ -39,11 +39,15 @@ def gen_async_node(rng, kinds):
     if k == "rate_limit":
         return {"kind": "rate_limit", "interval": rng.choice([0.25, 1])}
     if k == "map_async":
-        return {"kind": "map_async", "f": rng.choice([["inc"], ["dbl"], ["id"]]), "parallelism": rng.choice([1, 1, 2, 3])}
+        nd = {"kind": "map_async", "f": rng.choice([["inc"], ["dbl"], ["id"]]), "parallelism": rng.choice([1, 1, 2, 3])}
+        if rng.random() < 0.2:
+            nd["callfail"] = [3, rng.choice([0, 1, 2])]     # the callable itself raises for some arguments
+        return nd
     if k == "timed_window":
         return {"kind": "timed_window", "interval": rng.choice([1, 2])}
     if k == "timed_window_unique":
-        return {"kind": "timed_window_unique", "interval": rng.choice([1, 2]), "key": rng.choice([["modk", 2], ["modk", 3], ["id"]]),
+        return {"kind": "timed_window_unique", "interval": rng.choice([1, 2]),
+                "key": rng.choice([["modk", 2], ["modk", 3], ["id"], ["bucketNone", 2], ["bucketNone", 3]]),
                 "keep": rng.choice(["first", "last"])}
     if k == "partition_timeout":
         return {"kind": "partition_timeout", "n": rng.choice([2, 3]), "timeout": rng.choice([1, 2]), "key": rng.choice([None, None, ["modk", 2]])}
@@ -92,6 +96,10 @@ def gen_pipeline(rng, kinds, allow_zip=True, two_async=0.3, sink_async=0.7, p_zi
                     nodes.append({"kind": "map", "f": ["sumTup"], "ups": [last]})
                     last += 1
             nd = gen_async_node(rng, kinds)
+            if a > 0 or any(n["kind"] not in ("source", "map") for n in nodes):
+                # a callable that raises is only generated where the exception reaches the emitter directly
+                # (downstream of a buffering node it would end that node's delivery coroutine)
+                nd.pop("callfail", None)
             nd["ups"] = [last]
             nodes.append(nd)
             last = len(nodes) - 1
@@ -146,9 +154,21 @@ def choose_op(rng, run, nodes, st, opts):
         src = st["last_src"]        # let one producer of a zip run ahead of the other
     st["last_src"] = src
     val = st["val"] if not opts.get("small_alphabet") else rng.choice([0, 1, 2, 3])
+    if opts.get("none_ok") and rng.random() < 0.25:
+        val = None          # a None element (the key function maps it to a bucket shared with other elements)
     if rng.random() < opts.get("p_nomd", 0.0):
         return {"op": "emit", "node": src, "val": val, "md": []}     # e.g. a heartbeat mixed into checkpointed traffic
     return {"op": "emit", "node": src, "val": val, "md": [{"tag": st["tag"], "ref": st["ref"]}]}
+
+
+NONE_SAFE = ("source", "timed_window_unique", "timed_window", "flatten", "sink", "buffer", "delay", "rate_limit", "latest")
+
+
+def none_ok(nodes):
+    """None elements may be emitted: every node tolerates them and some key function buckets them."""
+    return all(n["kind"] in NONE_SAFE for n in nodes) and \
+        any(n["kind"] == "timed_window_unique" for n in nodes) and \
+        all((n.get("key") or ["bucketNone"])[0] == "bucketNone" for n in nodes if n["kind"] == "timed_window_unique")
 
 
 def max_interval(nodes):
@@ -260,16 +280,22 @@ def rerun(case):
 # ------------------------------------------------------------------ reference (synchronous semantics)
 
 def reference_case(case):
-    """Same pipeline with the timing removed: buffer/delay/rate_limit -> identity, map_async f -> map f,
-    zip(maxsize) -> zip; batching nodes are kept out (their outputs are compared flattened)."""
+    """Same pipeline with the timing removed: buffer/delay/rate_limit -> identity, map_async f -> map f (preceded by a
+    failing map when the callable rejects some arguments), zip(maxsize) -> zip; batching nodes become element-wise."""
     nodes = []
-    for nd in case["nodes"]:
+    remap = {}
+    for i, nd in enumerate(case["nodes"]):
         nd = copy.deepcopy(nd)
+        nd["ups"] = [remap[u] for u in nd.get("ups", [])]
         k = nd["kind"]
         if k in ("buffer", "delay", "rate_limit"):
             nd = {"kind": "map", "f": ["id"], "ups": nd["ups"]}
         elif k == "map_async":
-            nd = {"kind": "map", "f": nd["f"], "ups": nd["ups"]}
+            if nd.get("callfail"):
+                nodes.append({"kind": "map", "f": ["failIf", nd["callfail"][0], nd["callfail"][1]], "ups": nd["ups"]})
+                nd = {"kind": "map", "f": nd["f"], "ups": [len(nodes) - 1]}
+            else:
+                nd = {"kind": "map", "f": nd["f"], "ups": nd["ups"]}
         elif k == "zipmax":
             nd = {"kind": "zip", "ups": nd["ups"], "literals": []}
         elif k in ("timed_window", "partition_timeout"):
@@ -279,8 +305,19 @@ def reference_case(case):
             nd["mode"] = "sync"
             nd.setdefault("f", ["id"])
         nodes.append(nd)
-    ops = [dict(op, md=[]) for op in elementary(case) if op["op"] == "emit"]
-    return {"mode": "sync", "nodes": nodes, "ops": ops}
+        remap[i] = len(nodes) - 1
+    ops = [dict(op, md=[], node=remap[op["node"]]) for op in elementary(case) if op["op"] == "emit"]
+    return {"mode": "sync", "nodes": nodes, "ops": ops, "remap": remap}
+
+
+def subops_all(ops):
+    out = []
+    for op in ops:
+        if op["op"] == "multi":
+            out += list(op["ops"])
+        else:
+            out.append(op)
+    return out
 
 
 def flat(v):
@@ -327,8 +364,9 @@ def oracle_lossless(case, obs):
         if nd.get("f") == ["pair1"]:
             nd["f"] = ["rep", 1]
     robs = graphlib.run_case(ref)
-    want = sink_sequences(ref, robs)
+    want_ref = sink_sequences(ref, robs)
     got = sink_sequences(case, obs)
+    want = {s: want_ref[ref["remap"][s]] for s in got}       # reference node ids -> ids of the real pipeline
     problems = []
     for s in want:
         ups_idx = upstream_chain(nodes, s)
@@ -535,7 +573,7 @@ def oracle_backpressure(case, obs):
     owner, ref_tag = tag_owner(case)
     problems = []
     tsinks = [i for i, n in enumerate(nodes) if n["kind"] == "sink" and transparent_reach(nodes, i)]
-    failing_sink = any(n["kind"] == "sink" and (n.get("f") or [""])[0] == "failIf" for n in nodes)
+    failing_sink = any(n["kind"] == "sink" and (n.get("f") or [""])[0] == "failIf" for n in nodes) or any(n.get("callfail") for n in nodes)
     consumers = {}      # tok -> (sink, tags)
     handed = {i: 0 for i, n in enumerate(nodes) if n["kind"] in ("buffer", "map_async")}
     first_after_source = {}
